@@ -2202,25 +2202,22 @@ Qed.
     operation ([send_self], [poison_self]) and of every other single event,
     and is closed under [++], holds of the trace of every completed scenario. *)
 Section TraceOnly.
+Variable c : cfg.
+Variable Q : extop -> Prop.
 Variable P : list event -> Prop.
 Hypothesis P_nil : P [].
 Hypothesis P_app : forall a b, P a -> P b -> P (a ++ b).
-Hypothesis P_send : forall s n b, P (snd (send_self s {| emsg := User n; esnd := b |})).
-Hypothesis P_poison : forall s g, P (snd (poison_self s g)).
+Hypothesis P_do : forall s i m s' t o, do_actions s (scr c i m) = (s', t, o) -> P t.
+Hypothesis P_ext : forall s x s1 t1, Q x -> ext_pre s x = (s1, t1) -> P t1.
 Hypothesis P_single : forall e, match e with Sent _ | Enq _ => False | _ => True end -> P [e].
 
 Lemma P_cons e t : match e with Sent _ | Enq _ => False | _ => True end -> P t -> P (e :: t).
 Proof. intros He Ht. apply (P_app [e] t); [apply P_single, He|exact Ht]. Qed.
 
-Lemma do_actions_P acts s s' t o : do_actions s acts = (s', t, o) -> P t.
-Proof.
-  apply (do_actions_rel (fun _ t _ => P t)); auto.
-Qed.
+Lemma recv_P s mw m s' t o : recv c s mw m = (s', t, o) -> P t.
+Proof. intros H. apply recv_inv in H as (ta & -> & H). apply P_cons; [exact I|eapply P_do; exact H]. Qed.
 
-Lemma recv_P c s mw m s' t o : recv c s mw m = (s', t, o) -> P t.
-Proof. intros H. apply recv_inv in H as (ta & -> & H). apply P_cons; [exact I|eapply do_actions_P; exact H]. Qed.
-
-Lemma invoke_msg_P c s e s' t o : invoke_msg c s e = (s', t, o) -> P t.
+Lemma invoke_msg_P s e s' t o : invoke_msg c s e = (s', t, o) -> P t.
 Proof.
   unfold invoke_msg. destruct (emsg e); [apply recv_P|]. intros [= <- <- <-]. exact P_nil.
 Qed.
@@ -2235,14 +2232,14 @@ Proof.
   destruct (emsg e) eqn:E; [destruct g; [exact P_nil|]|]; apply discard_P.
 Qed.
 
-Lemma cleanup_P c s k s' t : cleanup c s k = (s', t, Normal) -> P t.
+Lemma cleanup_P s k s' t : cleanup c s k = (s', t, Normal) -> P t.
 Proof.
   intros H. apply cleanup_normal_inv in H as (s1 & t1 & E & -> & ->). apply recv_P in E.
   apply P_cons; [exact I|]. apply P_app; [exact E|]. apply P_cons; [exact I|]. apply P_cons; [exact I|].
   apply P_app; [apply flat_discard_P|]. destruct k; [apply P_single; exact I|exact P_nil].
 Qed.
 
-Lemma drain_P c : forall l s n sk s' t o np sk', drain c s l n sk = (s', t, o, np, sk') -> P t.
+Lemma drain_P : forall l s n sk s' t o np sk', drain c s l n sk = (s', t, o, np, sk') -> P t.
 Proof.
   induction l as [|e l IH]; intros s n sk s' t o np sk' H; cbn [drain] in H.
   - injection H as <- <- <- <- <-. exact P_nil.
@@ -2253,7 +2250,7 @@ Proof.
     + injection H as <- <- <- <- <-. exact E1.
 Qed.
 
-Lemma invoke_loop_P c (Hs : stopped_safe c) : forall l s n s' t o np d,
+Lemma invoke_loop_P (Hs : stopped_safe c) : forall l s n s' t o np d,
   invoke_loop c s l n = (s', t, o, np, d) -> P t.
 Proof.
   induction l as [|e l IH]; intros s n s' t o np d H; cbn [invoke_loop] in H.
@@ -2279,7 +2276,7 @@ Qed.
 Lemma start_end_P s3 : P (snd (start_end s3)).
 Proof. unfold start_end. destruct (dead s3); cbn [snd]; [exact P_nil|apply P_single; exact I]. Qed.
 
-Theorem safe_P c (Hs : stopped_safe c) :
+Theorem safe_P (Hs : stopped_safe c) :
   (forall s msgs s' t, Invoke_s c s msgs s' t -> P t) /\
   (forall s s' t, Start_s c s s' t -> P t) /\
   (forall s b s' t, Restart_s c s b s' t -> P t).
@@ -2302,30 +2299,23 @@ Proof.
     apply P_cons; [exact I|]. apply P_cons; [exact I|exact IH].
 Qed.
 
-Lemma RunLoop_P c (Hs : stopped_safe c) s s' t : RunLoop_s c s s' t -> P t.
+Lemma RunLoop_P (Hs : stopped_safe c) s s' t : RunLoop_s c s s' t -> P t.
 Proof.
   induction 1 as [s E|s E Eq|s s1 t1 s2 t2 E Eq Hi _ IH]; try exact P_nil.
-  apply P_app; [eapply (proj1 (safe_P c Hs)); exact Hi|exact IH].
+  apply P_app; [eapply (proj1 (safe_P Hs)); exact Hi|exact IH].
 Qed.
 
-Lemma ext_pre_P s x s1 t1 : ext_pre s x = (s1, t1) -> P t1.
+Lemma Exts_P (Hs : stopped_safe c) s xs s' t : Forall Q xs -> Exts_s c s xs s' t -> P t.
 Proof.
-  destruct x; cbn [ext_pre]; intros H.
-  - pose proof (P_send s n false) as Hp. rewrite H in Hp. exact Hp.
-  - pose proof (P_poison s true) as Hp. rewrite H in Hp. exact Hp.
-  - pose proof (P_poison s false) as Hp. rewrite H in Hp. exact Hp.
+  intros HQ H. induction H as [s|s x s1 t1 s2 t2 xs s3 t3 Ep Hl _ IH]; [exact P_nil|].
+  inversion HQ as [|? ? Hx HQ']; subst.
+  apply P_app; [eapply P_ext; eassumption|]. apply P_app; [eapply RunLoop_P; eassumption|exact (IH HQ')].
 Qed.
 
-Lemma Exts_P c (Hs : stopped_safe c) s xs s' t : Exts_s c s xs s' t -> P t.
+Theorem Run_P (Hs : stopped_safe c) xs s t : Forall Q xs -> Run_s c xs s t -> P t.
 Proof.
-  induction 1 as [s|s x s1 t1 s2 t2 xs s3 t3 Ep Hl _ IH]; [exact P_nil|].
-  apply P_app; [eapply ext_pre_P; exact Ep|]. apply P_app; [eapply RunLoop_P; eassumption|exact IH].
-Qed.
-
-Theorem Run_P c (Hs : stopped_safe c) xs s t : Run_s c xs s t -> P t.
-Proof.
-  intros [s0 t0 s1 t1 s2 t2 H0 H1 H2].
-  apply P_app; [eapply (proj1 (proj2 (safe_P c Hs))); exact H0|].
+  intros HQ [s0 t0 s1 t1 s2 t2 H0 H1 H2].
+  apply P_app; [eapply (proj1 (proj2 (safe_P Hs))); exact H0|].
   apply P_app; [eapply RunLoop_P; eassumption|eapply Exts_P; eassumption].
 Qed.
 
@@ -2677,13 +2667,22 @@ Qed.
 (* what was accepted into the inbox was sent, in that order *)
 Lemma acc_sub_sends c (Hs : stopped_safe c) xs s t : Run_s c xs s t -> Subseq (uacc t) (sends_of t).
 Proof.
-  apply (Run_P (fun t => Subseq (uacc t) (sends_of t))).
+  assert (Hsend : forall s0 n b, Subseq (uacc (snd (send_self s0 {| emsg := User n; esnd := b |})))
+                                        (sends_of (snd (send_self s0 {| emsg := User n; esnd := b |}))))
+    by (intros s0 n b; unfold send_self; destruct (registered s0); cbn; first [apply Subseq_refl|apply Subseq_nil_l]).
+  assert (Hpois : forall s0 g, Subseq (uacc (snd (poison_self s0 g))) (sends_of (snd (poison_self s0 g))))
+    by (intros s0 g; unfold poison_self; destruct (registered s0); cbn; apply Subseq_nil_l).
+  assert (Happ : forall a b, Subseq (uacc a) (sends_of a) -> Subseq (uacc b) (sends_of b) -> Subseq (uacc (a ++ b)) (sends_of (a ++ b)))
+    by (intros a b Ha Hb; rewrite uacc_app, sends_of_app; apply Subseq_app; assumption).
+  intros Hr. apply (Run_P c (fun _ => True) (fun t => Subseq (uacc t) (sends_of t))) with (xs := xs) (s := s); try assumption.
   - constructor.
-  - intros a b Ha Hb. rewrite uacc_app, sends_of_app. apply Subseq_app; assumption.
-  - intros s0 n b. unfold send_self. destruct (registered s0); cbn; first [apply Subseq_refl|apply Subseq_nil_l].
-  - intros s0 g. unfold poison_self. destruct (registered s0); cbn; apply Subseq_nil_l.
+  - intros s0 i m s' t0 o. apply (do_actions_rel (fun _ t _ => Subseq (uacc t) (sends_of t))); auto. intros; constructor.
+  - intros s0 x s1 t1 _ H. destruct x; cbn [ext_pre] in H.
+    + specialize (Hsend s0 n false). rewrite H in Hsend. exact Hsend.
+    + specialize (Hpois s0 true). rewrite H in Hpois. exact Hpois.
+    + specialize (Hpois s0 false). rewrite H in Hpois. exact Hpois.
   - intros e He. destruct e as [ | | | | | | |[]| | | | | | | | | ]; cbn; try contradiction; apply Subseq_nil_l.
-  - exact Hs.
+  - apply Forall_forall. intros; exact I.
 Qed.
 
 (** C05: the user messages delivered are exactly a prefix of the user
@@ -3017,6 +3016,308 @@ Theorem C05_panic_then_stopped_thm :
 Proof. intros f c xs s t Hs H Hf. apply (Run_pmon c Hs xs s). eapply run_sound; eassumption. Qed.
 
 (* ------------------------------------------------------------------ *)
+(** * E''. C13: the Context shows the sender the message was sent with *)
+
+(* [E] is any property of envelopes; if it holds of every envelope accepted
+   into the inbox during the run then every user delivery shows a
+   (payload, sender) pair that has it *)
+Section Sender.
+Variable E : env -> Prop.
+
+Definition TOK (e : event) : Prop :=
+  match e with Recv _ _ (LUser n) sd => E {| emsg := User n; esnd := sd |} | _ => True end.
+
+Lemma hev_TOK t : Forall hev t -> Forall TOK t.
+Proof. apply Forall_impl. intros []; cbn; tauto. Qed.
+
+Lemma Forall_E_incl (l1 l2 : list env) : incl l1 l2 -> Forall E l2 -> Forall E l1.
+Proof. intros Hi H. apply Forall_forall. intros x Hx. rewrite Forall_forall in H. apply H, Hi, Hx. Qed.
+
+Lemma recv_tok c s m s' t o : recv c s true m = (s', t, o) ->
+  match m with LUser n => E {| emsg := User n; esnd := csender s |} | _ => True end -> Forall TOK t.
+Proof.
+  intros H Hm. apply recv_inv in H as (ta & -> & H). apply do_actions_frame in H as [_ Hh].
+  constructor; [destruct m; try exact I; exact Hm|apply hev_TOK, Hh].
+Qed.
+
+Lemma invoke_msg_tok c s e s' t o : invoke_msg c s e = (s', t, o) -> E e -> Forall TOK t.
+Proof.
+  unfold invoke_msg. destruct e as [p b]. cbn [emsg esnd]. destruct p.
+  - intros H He. eapply recv_tok; [exact H|exact He].
+  - intros [= <- <- <-] _. constructor.
+Qed.
+
+Lemma cleanup_tok c s k s' t : cleanup c s k = (s', t, Normal) -> Forall TOK t.
+Proof.
+  intros H. apply cleanup_normal_inv in H as (s1 & t1 & E1 & -> & ->).
+  constructor; [exact I|]. apply Forall_app; split; [eapply recv_tok; [exact E1|exact I]|].
+  constructor; [exact I|]. constructor; [exact I|].
+  apply Forall_app; split; [apply hev_TOK, flat_discard_hev|destruct k; repeat constructor].
+Qed.
+
+Lemma drain_tok c : forall l s n sk s' t o np sk', drain c s l n sk = (s', t, o, np, sk') ->
+  incl sk' (sk ++ l) /\ (Forall E l -> Forall TOK t).
+Proof.
+  induction l as [|e l IH]; intros s n sk s' t o np sk' H; cbn [drain] in H.
+  - injection H as <- <- <- <- <-. split; [rewrite app_nil_r; apply incl_refl|constructor].
+  - destruct (emsg e) eqn:Ee.
+    + destruct (invoke_msg c s e) as [[s1 t1] o1] eqn:E1. destruct o1.
+      * destruct (drain c s1 l (S n) sk) as [[[[s2 t2] o2] np2] sk2] eqn:E2. injection H as <- <- <- <- <-.
+        apply IH in E2 as [I2 T2]. split.
+        -- intros x Hx. apply I2 in Hx. apply in_app_or in Hx as [Hx|Hx]; apply in_or_app; [left|right; right]; exact Hx.
+        -- intros Hl. inversion Hl as [|? ? He Hl']; subst. apply Forall_app; split; [eapply invoke_msg_tok; eassumption|apply T2, Hl'].
+      * injection H as <- <- <- <- <-. split; [apply incl_appl, incl_refl|].
+        intros Hl. inversion Hl as [|? ? He Hl']; subst. eapply invoke_msg_tok; eassumption.
+    + apply IH in H as [I2 T2]. split.
+      * intros x Hx. apply I2 in Hx. rewrite <- app_assoc in Hx. exact Hx.
+      * intros Hl. inversion Hl; subst. apply T2. assumption.
+Qed.
+
+Lemma invoke_loop_tok c (Hs : stopped_safe c) : forall l s n s' t o np d,
+  invoke_loop c s l n = (s', t, o, np, d) -> incl d l /\ (Forall E l -> Forall TOK t).
+Proof.
+  induction l as [|e l IH]; intros s n s' t o np d H; cbn [invoke_loop] in H.
+  - injection H as <- <- <- <- <-. split; [apply incl_refl|constructor].
+  - destruct (emsg e) eqn:Ee.
+    + destruct (invoke_msg c s e) as [[s1 t1] o1] eqn:E1. destruct o1.
+      * destruct (invoke_loop c s1 l (S n)) as [[[[s2 t2] o2] np2] d2] eqn:E2. injection H as <- <- <- <- <-.
+        apply IH in E2 as [I2 T2]. split; [apply incl_tl, I2|].
+        intros Hl. inversion Hl as [|? ? He Hl']; subst. apply Forall_app; split; [eapply invoke_msg_tok; eassumption|apply T2, Hl'].
+      * injection H as <- <- <- <- <-. split; [apply incl_nil_l|].
+        intros Hl. inversion Hl as [|? ? He Hl']; subst. eapply invoke_msg_tok; eassumption.
+    + destruct graceful.
+      * destruct (drain c s l (S n) []) as [[[[s1 t1] o1] np1] sk1] eqn:E1. apply drain_tok in E1 as [I1 T1].
+        cbn [app] in I1. destruct o1.
+        -- destruct (cleanup c s1 (Some k)) as [[s2 t2] o2] eqn:E2.
+           pose proof (cleanup_safe _ _ _ _ _ _ Hs E2) as ->. apply cleanup_tok in E2.
+           injection H as <- <- <- <- <-. split; [apply incl_nil_l|].
+           intros Hl. inversion Hl; subst. apply Forall_app; split; [apply T1; assumption|].
+           apply Forall_app; split; [exact E2|apply hev_TOK, discard_rest_hev].
+        -- injection H as <- <- <- <- <-. split.
+           ++ intros x [<-|Hx]; [left; reflexivity|right; apply I1, Hx].
+           ++ intros Hl. inversion Hl; subst. apply T1. assumption.
+      * destruct (cleanup c s (Some k)) as [[s2 t2] o2] eqn:E2.
+        pose proof (cleanup_safe _ _ _ _ _ _ Hs E2) as ->. apply cleanup_tok in E2.
+        injection H as <- <- <- <- <-. split; [apply incl_nil_l|]. intros _. cbn [app].
+        apply Forall_app; split; [exact E2|apply hev_TOK, discard_rest_hev].
+Qed.
+
+Lemma start_end_tok s3 : Forall TOK (snd (start_end s3)).
+Proof. unfold start_end. destruct (dead s3); repeat constructor. Qed.
+
+Theorem safe_tok c (Hs : stopped_safe c) :
+  (forall s msgs s' t, Invoke_s c s msgs s' t -> Forall E msgs -> Forall TOK t) /\
+  (forall s s' t, Start_s c s s' t -> Forall E (mbuf s) -> Forall TOK t) /\
+  (forall s b s' t, Restart_s c s b s' t -> Forall E (mbuf s) -> Forall TOK t).
+Proof.
+  apply safe_mutind.
+  - intros s msgs s' t np d El Hm. apply (invoke_loop_tok c Hs) in El as [_ T]. apply T, Hm.
+  - intros s msgs s1 t1 b np d s' t2 El _ IH Hm. apply (invoke_loop_tok c Hs) in El as [I1 T].
+    apply Forall_app; split; [apply T, Hm|]. apply IH. cbn [mbuf upd_mbuf]. unfold rbuf.
+    apply Forall_app; split; [eapply Forall_E_incl; eassumption|].
+    eapply Forall_E_incl; [|exact Hm]. intros x Hx. rewrite <- (firstn_skipn np msgs). apply in_or_app. right. exact Hx.
+  - intros s si ti b s' t' Ei _ IH Hm. pose proof (recv_quiet _ _ _ _ _ _ Ei) as [_ (_&_&Hb&_)]. cbn in Hb.
+    constructor; [exact I|]. apply Forall_app; split; [eapply recv_tok; [exact Ei|exact I]|]. apply IH. rewrite Hb. exact Hm.
+  - intros s si ti s2 ts b s' t' Ei Es _ IH Hm.
+    pose proof (recv_quiet _ _ _ _ _ _ Ei) as [_ (_&_&Hb&_)]. pose proof (recv_quiet _ _ _ _ _ _ Es) as [_ (_&_&Hb2&_)]. cbn in Hb.
+    constructor; [exact I|]. apply Forall_app; split; [eapply recv_tok; [exact Ei|exact I]|].
+    constructor; [exact I|]. apply Forall_app; split; [eapply recv_tok; [exact Es|exact I]|]. apply IH. rewrite Hb2, Hb. exact Hm.
+  - intros s si ti s2 ts Ei Es Hb0 Hm.
+    constructor; [exact I|]. apply Forall_app; split; [eapply recv_tok; [exact Ei|exact I]|].
+    constructor; [exact I|]. apply Forall_app; split; [eapply recv_tok; [exact Es|exact I]|].
+    constructor; [exact I|]. apply start_end_tok.
+  - intros s si ti s2 ts s3 t3 Ei Es Hb0 _ IH Hm.
+    pose proof (recv_quiet _ _ _ _ _ _ Ei) as [_ (_&_&Hb&_)]. pose proof (recv_quiet _ _ _ _ _ _ Es) as [_ (_&_&Hb2&_)]. cbn in Hb.
+    constructor; [exact I|]. apply Forall_app; split; [eapply recv_tok; [exact Ei|exact I]|].
+    constructor; [exact I|]. apply Forall_app; split; [eapply recv_tok; [exact Es|exact I]|].
+    constructor; [exact I|]. apply Forall_app; split; [apply IH; rewrite Hb2, Hb; exact Hm|apply start_end_tok].
+  - intros s s1 t1 s' t' E1 _ IH Hm. pose proof (recv_quiet _ _ _ _ _ _ E1) as [_ (_&_&Hb&_)].
+    apply Forall_app; split; [eapply recv_tok; [exact E1|exact I]|]. constructor; [exact I|]. apply IH. rewrite Hb. exact Hm.
+  - intros s s1 t1 Hmax E1 Hm. apply cleanup_tok in E1. constructor; [exact I|].
+    apply Forall_app; split; [exact E1|apply hev_TOK, flat_discard_hev].
+  - intros s s1 t1 s' t3 Hne E1 _ IH Hm. pose proof (recv_quiet _ _ _ _ _ _ E1) as [_ (_&_&Hb&_)].
+    apply Forall_app; split; [eapply recv_tok; [exact E1|exact I]|]. constructor; [exact I|]. constructor; [exact I|].
+    apply IH. cbn [mbuf upd_restarts]. rewrite Hb. exact Hm.
+Qed.
+
+End Sender.
+
+(* what is in the inbox was accepted: the queue only grows by [Enq]s *)
+Definition QI (s : pst) (t : list event) (s' : pst) : Prop := incl (queue s') (queue s ++ acc t).
+
+Lemma QI_refl s : QI s [] s.
+Proof. unfold QI. cbn. rewrite app_nil_r. apply incl_refl. Qed.
+Lemma QI_trans s t1 s1 t2 s2 : QI s t1 s1 -> QI s1 t2 s2 -> QI s (t1 ++ t2) s2.
+Proof.
+  unfold QI. intros H1 H2 x Hx. apply H2 in Hx. rewrite acc_app, app_assoc. apply in_app_or in Hx as [Hx|Hx]; apply in_or_app; [left; apply H1, Hx|right; exact Hx].
+Qed.
+Lemma QI_eq s t s' : queue s' = queue s ++ acc t -> QI s t s'.
+Proof. unfold QI. intros ->. apply incl_refl. Qed.
+Lemma QI_nil s t s' : queue s' = [] -> QI s t s'.
+Proof. unfold QI. intros ->. apply incl_nil_l. Qed.
+Lemma QI_cons0 s e t s' : acc [e] = [] -> QI s t s' -> QI s (e :: t) s'.
+Proof. unfold QI. intros He H. rewrite acc_cons0 by exact He. exact H. Qed.
+Lemma QI_app0 s t s' t2 : acc t2 = [] -> QI s t s' -> QI s (t ++ t2) s'.
+Proof. unfold QI. intros He H. rewrite acc_app, He, app_nil_r. exact H. Qed.
+Lemma hev_disc_acc l : acc (flat_map discard l) = [].
+Proof. induction l as [|e l IH]; [reflexivity|]. cbn [flat_map]. rewrite acc_app, IH. unfold discard. destruct (emsg e); reflexivity. Qed.
+
+Lemma invoke_loop_QI c (Hs : stopped_safe c) : forall l s n s' t o np d,
+  invoke_loop c s l n = (s', t, o, np, d) -> QI s t s'.
+Proof.
+  induction l as [|e l IH]; intros s n s' t o np d H; cbn [invoke_loop] in H.
+  - injection H as <- <- <- <- <-. apply QI_refl.
+  - destruct (emsg e) eqn:Ee.
+    + destruct (invoke_msg c s e) as [[s1 t1] o1] eqn:E1. apply invoke_msg_ord in E1 as (Q1 & _). destruct o1.
+      * destruct (invoke_loop c s1 l (S n)) as [[[[s2 t2] o2] np2] d2] eqn:E2. injection H as <- <- <- <- <-.
+        eapply QI_trans; [apply QI_eq, Q1|eapply IH; exact E2].
+      * injection H as <- <- <- <- <-. apply QI_eq, Q1.
+    + destruct graceful.
+      * destruct (drain c s l (S n) []) as [[[[s1 t1] o1] np1] sk1] eqn:E1. apply drain_ord in E1 as (Q1 & _). destruct o1.
+        -- destruct (cleanup c s1 (Some k)) as [[s2 t2] o2] eqn:E2.
+           pose proof (cleanup_safe _ _ _ _ _ _ Hs E2) as ->. apply cleanup_cnt with (x := inl 0) in E2 as (_ & C2 & _).
+           injection H as <- <- <- <- <-. apply QI_nil, C2.
+        -- injection H as <- <- <- <- <-. apply QI_eq, Q1.
+      * destruct (cleanup c s (Some k)) as [[s2 t2] o2] eqn:E2.
+        pose proof (cleanup_safe _ _ _ _ _ _ Hs E2) as ->. apply cleanup_cnt with (x := inl 0) in E2 as (_ & C2 & _).
+        injection H as <- <- <- <- <-. apply QI_nil, C2.
+Qed.
+
+Lemma recv_QI c s mw m s' t o : recv c s mw m = (s', t, o) -> QI s t s'.
+Proof. intros H. apply recv_ord in H as (Q & _). apply QI_eq, Q. Qed.
+
+Lemma start_end_QI s3 : QI s3 (snd (start_end s3)) (fst (start_end s3)).
+Proof. unfold start_end. destruct (dead s3); cbn [fst snd]; apply QI_eq; cbn; rewrite app_nil_r; reflexivity. Qed.
+
+Theorem safe_QI c (Hs : stopped_safe c) :
+  (forall s msgs s' t, Invoke_s c s msgs s' t -> QI s t s') /\
+  (forall s s' t, Start_s c s s' t -> QI s t s') /\
+  (forall s b s' t, Restart_s c s b s' t -> QI s t s').
+Proof.
+  apply safe_mutind.
+  - intros s msgs s' t np d El. eapply invoke_loop_QI; eassumption.
+  - intros s msgs s1 t1 b np d s' t2 El _ IH. eapply QI_trans; [eapply invoke_loop_QI; eassumption|exact IH].
+  - intros s si ti b s' t' Ei _ IH. apply recv_QI in Ei. apply QI_cons0; [reflexivity|]. eapply QI_trans; eassumption.
+  - intros s si ti s2 ts b s' t' Ei Es _ IH. apply recv_QI in Ei. apply recv_QI in Es.
+    apply QI_cons0; [reflexivity|]. eapply QI_trans; [exact Ei|]. apply QI_cons0; [reflexivity|]. eapply QI_trans; eassumption.
+  - intros s si ti s2 ts Ei Es Hb. apply recv_QI in Ei. apply recv_QI in Es.
+    apply QI_cons0; [reflexivity|]. eapply QI_trans; [exact Ei|]. apply QI_cons0; [reflexivity|]. eapply QI_trans; [exact Es|].
+    apply QI_cons0; [reflexivity|]. apply start_end_QI.
+  - intros s si ti s2 ts s3 t3 Ei Es Hb _ IH. apply recv_QI in Ei. apply recv_QI in Es.
+    apply QI_cons0; [reflexivity|]. eapply QI_trans; [exact Ei|]. apply QI_cons0; [reflexivity|]. eapply QI_trans; [exact Es|].
+    apply QI_cons0; [reflexivity|]. eapply QI_trans; [exact IH|]. apply (start_end_QI (upd_mbuf s3 [])).
+  - intros s s1 t1 s' t' E1 _ IH. apply recv_QI in E1. eapply QI_trans; [exact E1|]. apply QI_cons0; [reflexivity|exact IH].
+  - intros s s1 t1 Hmax E1. apply cleanup_cnt with (x := inl 0) in E1 as (_ & C2 & _). apply QI_nil. exact C2.
+  - intros s s1 t1 s' t3 Hne E1 _ IH. apply recv_QI in E1. eapply QI_trans; [exact E1|].
+    apply QI_cons0; [reflexivity|]. apply QI_cons0; [reflexivity|exact IH].
+Qed.
+
+Section SenderRun.
+Variable E : env -> Prop.
+Variable c : cfg.
+Hypothesis Hs : stopped_safe c.
+
+Lemma Forall_E_QI s t s' : QI s t s' -> Forall E (queue s) -> Forall E (acc t) -> Forall E (queue s').
+Proof. intros H H1 H2. eapply Forall_E_incl; [exact H|]. apply Forall_app; split; assumption. Qed.
+
+Lemma Forall_acc_app a b : Forall E (acc (a ++ b)) -> Forall E (acc a) /\ Forall E (acc b).
+Proof. rewrite acc_app. apply Forall_app. Qed.
+
+Lemma RunLoop_tok s s' t : RunLoop_s c s s' t -> Forall E (queue s) -> Forall E (acc t) ->
+  Forall (TOK E) t /\ Forall E (queue s').
+Proof.
+  induction 1 as [s Ei|s Ei Eq|s s1 t1 s2 t2 Ei Eq Hi _ IH]; intros Hq Ha; try (split; [constructor|exact Hq]).
+  apply Forall_acc_app in Ha as [Ha1 Ha2].
+  assert (Hq1 : Forall E (queue s1)).
+  { eapply Forall_E_QI; [apply (proj1 (safe_QI c Hs) _ _ _ _ Hi)| |exact Ha1]. cbn [queue upd_queue].
+    eapply Forall_E_incl; [|exact Hq]. intros x Hx. rewrite <- (firstn_skipn (batch c) (queue s)). apply in_or_app. right. exact Hx. }
+  destruct (IH Hq1 Ha2) as [T2 Q2]. split; [|exact Q2]. apply Forall_app; split; [|exact T2].
+  apply (proj1 (safe_tok E c Hs) _ _ _ _ Hi). eapply Forall_E_incl; [|exact Hq].
+  intros x Hx. rewrite <- (firstn_skipn (batch c) (queue s)). apply in_or_app. left. exact Hx.
+Qed.
+
+Lemma Exts_tok s xs s' t : Exts_s c s xs s' t -> Forall E (queue s) -> Forall E (acc t) ->
+  Forall (TOK E) t /\ Forall E (queue s').
+Proof.
+  induction 1 as [s|s x s1 t1 s2 t2 xs s3 t3 Ep Hl _ IH]; intros Hq Ha; [split; [constructor|exact Hq]|].
+  apply Forall_acc_app in Ha as [Ha1 Ha2]. apply Forall_acc_app in Ha2 as [Ha2 Ha3].
+  pose proof (ext_pre_frame _ _ _ _ Ep) as [_ Hh]. apply ext_pre_ord in Ep as (Q1 & _).
+  assert (Hq1 : Forall E (queue s1)) by (rewrite Q1; apply Forall_app; split; assumption).
+  destruct (RunLoop_tok _ _ _ Hl Hq1 Ha2) as [T2 Hq2]. destruct (IH Hq2 Ha3) as [T3 Hq3]. split; [|exact Hq3].
+  apply Forall_app; split; [apply hev_TOK, Hh|]. apply Forall_app; split; assumption.
+Qed.
+
+Theorem Run_tok xs s t : Run_s c xs s t -> Forall E (acc t) -> Forall (TOK E) t.
+Proof.
+  intros [s0 t0 s1 t1 s2 t2 H0 H1 H2] Ha. apply Forall_acc_app in Ha as [Ha0 Ha]. apply Forall_acc_app in Ha as [Ha1 Ha2].
+  assert (Hq0 : Forall E (queue s0)).
+  { eapply Forall_E_QI; [apply (proj1 (proj2 (safe_QI c Hs)) _ _ _ H0)|constructor|exact Ha0]. }
+  destruct (RunLoop_tok _ _ _ H1 Hq0 Ha1) as [T1 Hq1]. destruct (Exts_tok _ _ _ _ H2 Hq1 Ha2) as [T2 _].
+  apply Forall_app; split; [apply (proj1 (proj2 (safe_tok E c Hs)) _ _ _ H0); constructor|].
+  apply Forall_app; split; assumption.
+Qed.
+
+End SenderRun.
+
+(* where an accepted envelope can come from *)
+Definition env_source (c : cfg) (xs : list extop) (e : env) : Prop :=
+  match emsg e with
+  | User n => if esnd e then exists i m, In (ASend n) (scr c i m)
+              else (exists i m, In (ASendNil n) (scr c i m)) \/ In (XSend n) xs
+  | Pill _ _ => True
+  end.
+
+Lemma do_actions_source c xs i m : forall acts, incl acts (scr c i m) ->
+  forall s s' t o, do_actions s acts = (s', t, o) -> Forall (env_source c xs) (acc t).
+Proof.
+  induction acts as [|a acts IH]; intros Hi s s' t o H; cbn [do_actions] in H.
+  - injection H as <- <- <-. constructor.
+  - assert (Ha : In a (scr c i m)) by (apply Hi; left; reflexivity).
+    assert (Hi' : incl acts (scr c i m)) by (intros x Hx; apply Hi; right; exact Hx).
+    destruct a; try (injection H as <- <- <-; constructor);
+      match type of H with (let '(_, _) := ?X in _) = _ => destruct X as [s1 t1] eqn:E1 end;
+      destruct (do_actions s1 acts) as [[s2 t2] o2] eqn:E2; injection H as <- <- <-;
+      rewrite acc_app; (apply Forall_app; split; [|eapply IH; eassumption]);
+      unfold send_self, poison_self in E1; destruct (registered s); injection E1 as <- <-; cbn; repeat constructor.
+    + exists i, m. exact Ha.
+    + exists i, m. exact Ha.
+Qed.
+
+Lemma acc_source c (Hs : stopped_safe c) xs s t : Run_s c xs s t -> Forall (env_source c xs) (acc t).
+Proof.
+  intros Hr. apply (Run_P c (fun x => In x xs) (fun t => Forall (env_source c xs) (acc t))) with (xs := xs) (s := s); try assumption.
+  - constructor.
+  - intros a b Ha Hb. rewrite acc_app. apply Forall_app; split; assumption.
+  - intros s0 i m s' t0 o H. eapply do_actions_source; [apply incl_refl|exact H].
+  - intros s0 x s1 t1 Hx H. destruct x; cbn [ext_pre] in H; unfold send_self, poison_self in H;
+      destruct (registered s0); injection H as <- <-; cbn [acc flat_map app sent_of emsg];
+      first [solve [constructor]|constructor; [first [exact I|right; exact Hx]|constructor]].
+  - intros e He. destruct e; cbn; try contradiction; constructor.
+  - apply Forall_forall. intros x Hx. exact Hx.
+Qed.
+
+(** C13: inside the chain the Context shows the sender of that delivery: the
+    (payload, sender) pair of every user delivery is that of an envelope
+    accepted into the inbox during the run, and so the sender is set exactly
+    when the message was sent by [ctx.Send] (ASend) and unset when it was sent
+    without a sender (ASendNil, external send) *)
+Theorem C13_context_shows_sender_thm :
+  forall f c xs s t, stopped_safe c -> run f c xs = (s, t) -> out_of_fuel t = false ->
+  forall i mw n sd, In (Recv i mw (LUser n) sd) t ->
+  In (Enq {| emsg := User n; esnd := sd |}) t /\
+  (if sd then exists i' m, In (ASend n) (scr c i' m)
+   else (exists i' m, In (ASendNil n) (scr c i' m)) \/ In (XSend n) xs).
+Proof.
+  intros f c xs s t Hs H Hf i mw n sd Hin. pose proof (run_sound c Hs _ _ _ _ H Hf) as Hr. split.
+  - assert (Ha : Forall (fun e => In (Enq e) t) (acc t)).
+    { apply Forall_forall. intros e He. unfold acc in He. apply in_flat_map in He as (ev & Hev & Hx).
+      destruct ev; try contradiction. destruct Hx as [<-|[]]. exact Hev. }
+    pose proof (Run_tok _ c Hs _ _ _ Hr Ha) as T. rewrite Forall_forall in T. exact (T _ Hin).
+  - pose proof (Run_tok _ c Hs _ _ _ Hr (acc_source c Hs _ _ _ Hr)) as T. rewrite Forall_forall in T.
+    exact (T _ Hin).
+Qed.
+
+(* ------------------------------------------------------------------ *)
 (** * F. Soundness of the oracles of ProcExec.v
 
     [selfcase c] is the case [c] whose observation is the model's own
@@ -3074,10 +3375,49 @@ Lemma all2_refl {A} (f : A -> A -> bool) l : (forall a, f a a = true) -> all2 f 
 Proof. intros H. induction l as [|a l IH]; [reflexivity|]. cbn. rewrite H, IH. reflexivity. Qed.
 
 (** C13 *)
-Theorem oracle_c13_sound c : oracle_c13 (selfcase c) = true.
+Lemma recvs_of_in t r : In r (recvs_of t) -> In (Recv (or_inc r) (or_full r) (or_msg r) (or_snd r)) t.
 Proof.
-  unfold oracle_c13. cbn [c_obs selfcase model_obs o_hang o_recvs negb andb].
-  pose proof (model_run c) as H. apply run_PA in H as [H _]. apply forallb_or_full_recvs, H.
+  induction t as [|e t IH]; intros H; [contradiction|].
+  destruct e; cbn [recvs_of] in H; try (right; apply IH, H).
+  destruct H as [<-|H]; [left; reflexivity|right; apply IH, H].
+Qed.
+
+Lemma lookup_in tbl i m a : In a (lookup tbl i m) -> exists r, In r tbl /\ In a (r_do r).
+Proof.
+  induction tbl as [|r tbl IH]; cbn [lookup]; intros H; [contradiction|].
+  destruct ((Nat.eqb (r_inc r) 0 || Nat.eqb (r_inc r) i) && lmsg_eqb (r_on r) m).
+  - exists r. split; [left; reflexivity|exact H].
+  - destruct (IH H) as (r' & Hr & Ha). exists r'. split; [right; exact Hr|exact Ha].
+Qed.
+
+Lemma sent_with_sender_src tbl n : (exists i m, In (ASend n) (lookup tbl i m)) -> sent_with_sender tbl n = true.
+Proof.
+  intros (i & m & H). apply lookup_in in H as (r & Hr & Ha). unfold sent_with_sender.
+  apply existsb_exists. exists r. split; [exact Hr|]. apply existsb_exists. exists (ASend n). split; [exact Ha|apply Nat.eqb_refl].
+Qed.
+
+Lemma sent_without_sender_src tbl ops n :
+  (exists i m, In (ASendNil n) (lookup tbl i m)) \/ In (XSend n) ops -> sent_without_sender tbl ops n = true.
+Proof.
+  unfold sent_without_sender. intros [(i & m & H)|H]; apply orb_true_iff; [left|right].
+  - apply lookup_in in H as (r & Hr & Ha). apply existsb_exists. exists r. split; [exact Hr|].
+    apply existsb_exists. exists (ASendNil n). split; [exact Ha|apply Nat.eqb_refl].
+  - apply existsb_exists. exists (XSend n). split; [exact H|apply Nat.eqb_refl].
+Qed.
+
+Theorem oracle_c13_sound c :
+  stopped_safe (cfg_of c) -> out_of_fuel (snd (model c)) = false -> oracle_c13 (selfcase c) = true.
+Proof.
+  intros Hs Hf. unfold oracle_c13. cbn [c_obs selfcase model_obs o_hang o_recvs negb andb].
+  pose proof (model_run c) as Hr. pose proof (run_PA _ _ _ _ _ Hr) as [H _].
+  rewrite (forallb_or_full_recvs _ H). cbn [andb].
+  apply forallb_forall. intros r Hin. apply recvs_of_in in Hin. unfold sender_ok.
+  destruct (or_msg r) as [ | | |n] eqn:Em; try reflexivity.
+  destruct (C13_context_shows_sender_thm _ _ _ _ _ Hs Hr Hf _ _ _ _ Hin) as [_ Hsrc].
+  change (c_table (selfcase c)) with (c_table c). change (c_ops (selfcase c)) with (c_ops c). cbv zeta.
+  destruct (or_snd r).
+  - rewrite (sent_with_sender_src (c_table c) n Hsrc). destruct (sent_without_sender (c_table c) (c_ops c) n); reflexivity.
+  - rewrite (sent_without_sender_src (c_table c) (c_ops c) n Hsrc). destruct (sent_with_sender (c_table c) n); reflexivity.
 Qed.
 
 (** C04 *)
@@ -3204,7 +3544,7 @@ Proof.
   intros Hs Hf Hnd Hal.
   pose proof (oracle_c04_sound c Hs Hf) as H4. pose proof (oracle_c05_sound c Hs Hf Hnd) as H5.
   pose proof (oracle_c06_sound c Hs Hf) as H6. pose proof (oracle_c07_sound c Hs Hf Hal) as H7.
-  pose proof (oracle_c13_sound c) as H13.
+  pose proof (oracle_c13_sound c Hs Hf) as H13.
   unfold oracle. change (c_prop (selfcase c)) with (c_prop c).
   destruct (c_prop c) as [|[|[|[|[|[|[|[|[|[|[|[|[|[|n]]]]]]]]]]]]]]; try assumption;
     rewrite H4, H5, H6, H7, H13; reflexivity.
